@@ -79,6 +79,7 @@ func (p *storageProvider) acquireLock() error {
 	}
 
 	p.lockFile = lockFile
+	verifHook("lock.acquired", p.baseDir)
 	return nil
 }
 
@@ -100,12 +101,16 @@ func (p *storageProvider) releaseLock() error {
 	}
 
 	p.lockFile = nil
+	verifHook("lock.released", p.baseDir)
 	return nil
 }
 
 // initSegmentCounter scans existing segments and initializes the counter.
 // This ensures newly created segments have unique IDs.
 func (p *storageProvider) initSegmentCounter() error {
+	if err := verifFault("init.counter"); err != nil {
+		return err
+	}
 	entries, err := os.ReadDir(p.baseDir)
 	if err != nil {
 		return fmt.Errorf("failed to read directory: %w", err)
@@ -173,6 +178,9 @@ func (p *storageProvider) segmentPaths(segmentID uint64) (hybrid, vector, text, 
 //   - []uint64: Sorted list of segment IDs
 //   - error: Error if directory reading fails
 func (p *storageProvider) listSegments() ([]uint64, error) {
+	if err := verifFault("list.segments"); err != nil {
+		return nil, err
+	}
 	entries, err := os.ReadDir(p.baseDir)
 	if err != nil {
 		return nil, fmt.Errorf("failed to read directory: %w", err)
@@ -235,6 +243,7 @@ func (p *storageProvider) deleteSegment(segmentID uint64) error {
 		if err := os.Remove(file); err != nil && !os.IsNotExist(err) {
 			errs = append(errs, fmt.Errorf("failed to delete %s: %w", file, err))
 		}
+		verifHook("delete.file", segmentID, file)
 	}
 
 	if len(errs) > 0 {
